@@ -451,6 +451,7 @@ type GenCfg struct {
 	Hostile    int  // per mille of account variable values that are not account names
 	Garbage    int  // per mille of variable values that are arbitrary text
 	LeadSaves  bool // the script starts with one to three save statements
+	OtherAssetLead bool // the script starts with a send of ANOTHER asset from one of the main send's source accounts
 	SmallPool  bool // only three account names: repetition within one source becomes the norm
 	NoWorldVars  bool // account variables are never bound to "world"
 	NumberSpellings bool // number literals with leading zeros / explicit minus zero (parser properties)
@@ -1303,6 +1304,23 @@ func (g *Gen) Program() *GProgram {
 				}
 			}
 			g.prog.Stmts = append(g.prog.Stmts, sv)
+		}
+		if g.cfg.OtherAssetLead && len(targets) > 0 {
+			// the same account is asked for two assets: a funded send of another asset comes first
+			a := g.r.Pick(targets)
+			other := "EUR"
+			if sendAsset == other {
+				other = "COIN/2"
+			}
+			if g.bal[a] == nil {
+				g.bal[a] = map[string]*big.Int{}
+			}
+			have := int64(3 + g.r.Intn(20))
+			g.bal[a][other] = bi(have)
+			k := bi(1 + int64(g.r.Intn(int(have))))
+			lead := &GStmt{Kind: StSend, Sent: &GSent{E: &GExpr{Kind: XMonetary, A: &GExpr{Kind: XAsset, S: other}, B: &GExpr{Kind: XNumber, N: k}}},
+				Src: &GSource{Kind: SrcAccount, E: &GExpr{Kind: XAccount, S: a}}, Dst: &GDest{Kind: DstAccount, E: &GExpr{Kind: XAccount, S: "users:001"}}}
+			g.prog.Stmts = append([]*GStmt{lead}, g.prog.Stmts...)
 		}
 		g.prog.Stmts = append(g.prog.Stmts, send)
 		if g.cfg.OneSend {
